@@ -182,7 +182,7 @@ fn confirm<F: Family>(f: &Arc<F>, st: &mut Stats, replay_extra: &Value, h: Vec<O
                 case,
             );
         }
-        Some(Ok(Ok(_))) => machinery(format!(
+        Some(Ok(Ok(_))) => guard::note_flaky(format!(
             "{}: failure did not reproduce for history [{desc}] (first run said: {first_msg}; hang={was_hang})",
             f.name()
         )),
@@ -211,7 +211,10 @@ pub fn bfs<F: Family>(f: Arc<F>, depth: usize, threads: usize, replay_extra: Val
                     frontier.push(vec![i]);
                 }
             }
-            Err((_, msg)) => confirm(&f, &mut st, &replay_extra, vec![i], msg, false),
+            Err((_, msg)) => {
+                // at most two reported cases per family so that every failing family gets a slot
+                if st.violations.len() < 2 { confirm(&f, &mut st, &replay_extra, vec![i], msg, false) } else { st.violations_total += 1; }
+            }
         }
     }
     per_level.push(frontier.len());
@@ -286,7 +289,7 @@ pub fn bfs<F: Family>(f: Arc<F>, depth: usize, threads: usize, replay_extra: Val
                         }
                     }
                 }
-                for (h, msg) in fails.into_iter().take(4) {
+                for (h, msg) in fails.into_iter().take(2) {
                     confirm(&f, &mut st, &replay_extra, h, msg, false);
                 }
             }
